@@ -25,6 +25,17 @@ def eligible(hist):
         return False
     if not any(e["ev"] == "Stmt" for e in hist):
         return False
+    # a section without statements cannot be exported (documented refusal of the builder): nothing to send
+    n = None
+    for e in hist:
+        if e["ev"] == "BeginSection":
+            if n == 0:
+                return False
+            n = 0
+        elif e["ev"] in ("Stmt", "Refuse") and n is not None:
+            n += 1
+    if n == 0:
+        return False
     if any(e["ev"] == "Stmt" and e["st"]["s"] in ("encrypt", "keywrap") for e in hist):
         return False      # their data are crypto: decided in the C19 lane by the owner clause, not by byte comparison
     return not any(e["ev"] == "Stmt" and e["st"]["s"] in KNOWN_STMTS for e in hist)
